@@ -199,14 +199,17 @@ def mutations(tokens, alphabet):
                 yield tokens[:i] + [t] + tokens[i + 1:]
 
 
-def with_blanks(tokens):
-    """Blanks between all tokens (tokens are grammar tokens, so this never splits a name or number)."""
+def with_blanks(tokens, ws="  "):
+    """Whitespace between all tokens (tokens are grammar tokens, so this never splits a name or number)."""
     out = []
     for i, t in enumerate(tokens):
         if t == " ":
             continue
         out.append(t)
-    return "  ".join(out)
+    return ws.join(out)
+
+
+WHITESPACE = ["  ", "\t", "\n", "\r\n", " \n  ", "\f"]   # every kind of whitespace both grammars ignore (common.WS)
 
 
 def plan(tier, seed):
@@ -256,18 +259,20 @@ def run_shard(cfg):
             rec.rank = ci
             base = do_x("".join(toks), core=True, ntok=len(toks))
             lead = toks[0] in ("/", "//")
-            sp = with_blanks(toks)
-            r2 = do_x(sp, core=True, ntok=len(toks))
-            if base and r2 and base != r2:
-                rec.violation("C17|xpath|whitespace-changes-meaning", {"grammar": "xpath", "text": "".join(toks), "spaced": sp}, "blanks between tokens changed verdict or matching behaviour")
+            for ws in WHITESPACE:
+                sp = with_blanks(toks, ws) + ("" if ws == "  " else ws)   # also trailing
+                r2 = do_x(sp, core=True, ntok=len(toks))
+                if base and r2 and base != r2:
+                    rec.violation("C17|xpath|whitespace-changes-meaning", {"grammar": "xpath", "text": "".join(toks), "spaced": sp}, "whitespace between tokens changed verdict or matching behaviour")
     for ci, toks in enumerate(PCORE):
         if ci % of == k % max(1, min(of, len(PCORE))) or ci % of == k:
             rec.rank = ci
             base = do_p("".join(toks), core=True, ntok=len(toks))
-            sp = with_blanks(toks)
-            r2 = do_p(sp, core=True, ntok=len(toks))
-            if base and r2 and base != r2:
-                rec.violation("C17|pattern|whitespace-changes-meaning", {"grammar": "pattern", "text": "".join(toks), "spaced": sp}, "blanks between tokens changed verdict or matching behaviour")
+            for ws in WHITESPACE:
+                sp = with_blanks(toks, ws) + ("" if ws == "  " else ws)
+                r2 = do_p(sp, core=True, ntok=len(toks))
+                if base and r2 and base != r2:
+                    rec.violation("C17|pattern|whitespace-changes-meaning", {"grammar": "pattern", "text": "".join(toks), "spaced": sp}, "whitespace between tokens changed verdict or matching behaviour")
     for toks in XCORE:
         for m in mutations(toks, XTOK):
             idx += 1
